@@ -2247,6 +2247,48 @@ pub fn intern_pending<'db>(db: &'db dyn TyckDb) -> ScopedData<'db> {
     )
 }
 
+/// Identifies one use of the pending-parts slot.
+///
+/// [`intern_pending`] has no key, so salsa keeps its first result for the life
+/// of the storage: a database that checks more than one resolved program gives
+/// every program its own ticket and calls [`intern_pending_for`].
+#[salsa::input]
+pub struct PendingTicket {
+    pub serial: u64,
+}
+
+impl PendingTicket {
+    /// A ticket that no other caller in this process holds.
+    pub fn fresh(db: &dyn TyckDb) -> Self {
+        static NEXT: std::sync::atomic::AtomicU64 = std::sync::atomic::AtomicU64::new(0);
+        Self::new(db, NEXT.fetch_add(1, std::sync::atomic::Ordering::Relaxed))
+    }
+}
+
+/// [`intern_pending`] for the program that the holder of `ticket` put into the
+/// slot.
+#[salsa::tracked]
+pub fn intern_pending_for<'db>(db: &'db dyn TyckDb, ticket: PendingTicket) -> ScopedData<'db> {
+    let _ = ticket.serial(db);
+    let parts = db
+        .pending_parts()
+        .lock()
+        .expect("pending check slot poisoned")
+        .take()
+        .expect("pending check slot is empty");
+    let parts = match std::sync::Arc::try_unwrap(parts) {
+        | Ok(parts) => parts,
+        | Err(_) => panic!("pending parts are still shared"),
+    };
+    ScopedData::new(
+        db,
+        std::sync::Arc::new(parts.spans),
+        parts.prim,
+        std::sync::Arc::new(parts.scoped),
+        parts.root,
+    )
+}
+
 /// The complete result of checking one source snapshot.
 #[derive(Clone, Debug)]
 pub struct TyckOutput {
